@@ -21,6 +21,7 @@ MNext ==
   \/ Step(TaskGo(r), <<"i">>)
   \/ Step(StopGo(r), <<"i">>)
   \/ \E e \in BOOLEAN : Step(SessionEnd(r, e), <<"end", e>>)
+  \/ r.live /\ ~r.grace /\ Step(Graceful(r), <<"graceful">>)
   \* time passes to the retry timer, or a bit (events in between)
   \/ ~fin /\ r.timer # NoT /\ r.timer > r.now /\ r.timer <= MaxTime /\ AtRest(r) /\ k' = k /\ r' = [Begin(r) EXCEPT !.now = r.timer]
         /\ H(<<"totimer">>) /\ UNCHANGED fin
